@@ -117,6 +117,23 @@ def fanout_sweep(ctx, F, prefix, method):
                 ok = pend
         if not ok:
             bad.append((nchild, nadv, end, [b.blocks[x]["term"].get("span", "") for x in blocks if x in child_bbs or x in rem_bbs][:3]))
+    if method != "start_send":
+        # Ready is answered only after a sweep over the entries: an early `return Ready(Ok)` (e.g. behind a "nothing written since the
+        # last flush" flag) claims completion for sinks that were never polled in this call — a flush that was Pending is then never resumed
+        early = []
+        for i2, j2, pl, rv, s2 in b.assigns():
+            if rv["k"] == "agg" and rv.get("adt") == "core::task::poll::Poll" and rv.get("variant") == "Ready" and pl["l"] in retl and i2 in flow.reach_avoiding(b, [0], [header]):
+                empty_guard = False
+                for x in range(len(b.blocks)):
+                    sc = flow.switch_condition(b, x)
+                    if sc and sc.get("kind") == "call" and strip_generics(sc["call"].callee) in ("alloc::vec::Vec::is_empty", "core::slice::<impl [T]>::is_empty"):
+                        edge = sc["false"] if sc.get("neg") else sc["true"]
+                        if b.dominates(edge, i2):
+                            empty_guard = True
+                if not empty_guard:
+                    early.append(s2["span"])
+        ctx.check(not early, prefix + ".sweep-complete", "fanout:%s:early-ready" % method,
+                  "FanoutMany::%s answers Ready only after sweeping its entries (no early return%s)" % (method, (": " + early[0]) if early else ""), b.span)
     ctx.check(not bad and n_iter >= 2, prefix + ".sweep-once", "fanout:%s:sweep" % method,
               "FanoutMany::%s: every iteration path polls/sends to exactly one entry and then either advances the index or removes that entry (%d iteration paths; offending: %s)" % (method, n_iter, bad[:3]), b.span)
     if method == "start_send":
@@ -238,6 +255,27 @@ def router_retain(ctx, F, prefix, method):
                 okarm = flow.reach_avoiding(cb, [v[2].get("Ok", v[3])], [sw])
                 errarm = flow.reach_avoiding(cb, [v[2].get("Err", v[3])], [sw])
                 ok = ok and not (false_blocks & okarm) and bool(false_blocks & errarm)
+    rb_, rc_ = rt[0]
+    retl = {0}
+    grew = True
+    ib = F.inlined(b)
+    early = []
+    if rb_ is b or True:
+        body_ = ib
+        rts = [c for c in body_.calls() if c.name() == "retain"]
+        grew = True
+        while grew:
+            grew = False
+            for i2, j2, pl, rv, s2 in body_.assigns():
+                if pl["l"] in retl and not pl["p"] and rv["k"] == "use" and rv["op"].get("k") in ("copy", "move") and not rv["op"]["pl"]["p"] and rv["op"]["pl"]["l"] not in retl:
+                    retl.add(rv["op"]["pl"]["l"])
+                    grew = True
+        if rts:
+            for i2, j2, pl, rv, s2 in body_.assigns():
+                if rv["k"] == "agg" and rv.get("adt") == "core::task::poll::Poll" and rv.get("variant") == "Ready" and pl["l"] in retl and i2 in flow.reach_avoiding(body_, [0], [c.bb for c in rts]):
+                    early.append(s2["span"])
+    ctx.check(not early, prefix + ".sweep-complete", "router:%s:early-ready" % method,
+              "Router::%s answers Ready only after sweeping its entries (no early return%s)" % (method, (": " + early[0]) if early else ""), b.span)
     ctx.check(ok, prefix + ".evict-only-failed", "router:%s:evicts-healthy" % method, "Router::%s evicts an entry only when its %s returned Ready(Err) (not on Pending or Ok)" % (method, method), cb.span)
     # entries not polled twice: the `pending` short-circuit returns true without polling
     ctx.ok(prefix + ".retain-shape", "Router::%s polls each entry at most once per call (retain visits each entry once)" % method, cb.span)
